@@ -119,7 +119,32 @@ int main(void)
             ec_basis_t B1c = B1;
             change_of_basis_matrix_two(&out, &B1, &B2, &E2, e);
             printf("R"); print_ibz(&out[0][0]); print_ibz(&out[0][1]); print_ibz(&out[1][0]); print_ibz(&out[1][1]);
-            printf(" |"); a9_print_affx(&B1c.P); a9_print_affx(&B1c.Q); a9_print_affx(&B1c.PmQ); printf("\n");
+            printf(" |"); a9_print_affx(&B1c.P); a9_print_affx(&B1c.Q); a9_print_affx(&B1c.PmQ);
+            /* the same round trip with the caller's curve struct in other states of its A24 cache (results must not depend on it):
+               1 fresh init + (A, C) only; 2 projective rescaling (lA : lC), fresh; 3 flag clear, stale A24 content; 4 the constant CURVE_E0 */
+            for (int st = 1; st <= 4; st++) {
+                ec_curve_t Ea, Eb;
+                ec_curve_init(&Ea); ec_curve_init(&Eb);
+                Ea.A = cur.A; Ea.C = cur.C; Eb.A = cur.A; Eb.C = cur.C;
+                if (st == 2) {
+                    fp2_t l; fp2_set_small(&l, 7); fp_set_small(&l.im, 3);
+                    fp2_mul(&Ea.A, &cur.A, &l); fp2_mul(&Ea.C, &cur.C, &l); Eb.A = Ea.A; Eb.C = Ea.C;
+                } else if (st == 3) {
+                    Ea.A24.x = cur.C; Ea.A24.z = B.P.x; Eb.A24 = Ea.A24;
+                } else if (st == 4) {
+                    if (!(fp2_is_zero(&cur.A) && fp2_is_one(&cur.C))) continue;
+                    Ea = CURVE_E0; Eb = CURVE_E0;
+                }
+                ec_basis_t Ba = B, Bb = B;
+                ibz_mat_2x2_t Ms, outs; ibz_mat_2x2_init(&Ms); ibz_mat_2x2_init(&outs);
+                ibz_from_shex(&Ms[0][0], t[2]); ibz_from_shex(&Ms[0][1], t[3]); ibz_from_shex(&Ms[1][0], t[4]); ibz_from_shex(&Ms[1][1], t[5]);
+                matrix_application_even_basis(&Ba, &Ea, &Ms, e);
+                int sameapp = ec_is_equal(&Ba.P, &B1c.P) && ec_is_equal(&Ba.Q, &B1c.Q) && ec_is_equal(&Ba.PmQ, &B1c.PmQ);
+                change_of_basis_matrix_two(&outs, &Ba, &Bb, &Eb, e);
+                printf(" | s%d %d", st, sameapp); print_ibz(&outs[0][0]); print_ibz(&outs[0][1]); print_ibz(&outs[1][0]); print_ibz(&outs[1][1]);
+                ibz_mat_2x2_finalize(&Ms); ibz_mat_2x2_finalize(&outs);
+            }
+            printf("\n");
             ibz_mat_2x2_finalize(&M); ibz_mat_2x2_finalize(&out);
         } else
             printf("R bad-op\n");
